@@ -5,10 +5,12 @@ byte level = token level on printed token sequences (`nssL_ltoks`), the OSC 8 pa
 and the round trip with the link carried along (`ss_roundtrip_links_full`).
 -/
 import VaxisModel.Lemmas.SgrLinks
+import VaxisModel.Props.C18
 
 namespace VaxisModel.Lemmas.SgrLinksFull
 open VaxisModel.Gen VaxisModel.Model.Sgr VaxisModel.Model.SgrBytes VaxisModel.Model.SgrLinks
 open VaxisModel.Lemmas.ParserParams VaxisModel.Lemmas.Sgr VaxisModel.Lemmas.SgrBytes VaxisModel.Lemmas.SgrLinks
+open VaxisModel.Model.Color (indexColor rgbColor)
 
 /-! ### Cut -/
 
@@ -421,5 +423,114 @@ theorem nssLoopL_cells (cl : Str → Nat) (dflt : Style) (dl : Link) : ∀ (fuel
         · simp only [h2, Bool.false_eq_true, if_false]
           rw [← ih st lk (List.drop (max 1 (cl (c :: r))) (c :: r))]
           cases nssLoopL cl dflt dl fuel st lk (List.drop (max 1 (cl (c :: r))) (c :: r)) <;> rfl
+
+/-! ### the legacy semicolon forms (what `EncodeCells` writes under `VAXIS_FORCE_LEGACY_SGR`) leave the link alone too -/
+
+theorem ssLoopKL_skip2 (cfg : Cfg) (dflt : Style) (dl : Link) (a b : List SubTok) (s : Style) (l : Link) :
+    ssLoopKL cfg dflt dl 2 [a, b] s l = .ok (s, l) := rfl
+
+theorem ssLoopKL_skip4 (cfg : Cfg) (dflt : Style) (dl : Link) (a b c d : List SubTok) (s : Style) (l : Link) :
+    ssLoopKL cfg dflt dl 4 [a, b, c, d] s l = .ok (s, l) := rfl
+
+theorem ssSeqL_idx_legacy (dflt : Style) (dl : Link) (s : Style) (l : Link) (p n : Nat) (hp : p = 38 ∨ p = 48) :
+    ssSeqL dflt dl s l [[p], [5], [n]] = .ok (setCol p s (indexColor (u8 n)), l) := by
+  have hl : p ∈ ssCfg.labels := by rcases hp with rfl | rfl <;> decide
+  have ha : ssCfg.accepts p 1 = true := Props.C18.ssCfg_legacy p hp
+  rcases hp with rfl | rfl <;>
+    simp [ssSeqL, ssLoopKL, ssOne, idx, tokN, hl, ssColour, ssLegacy, rawIs, rawAtoi, ha, setCol, u8i_nat, isResetParam]
+
+theorem ssSeqL_rgb_legacy (dflt : Style) (dl : Link) (s : Style) (l : Link) (p r g b : Nat) (hp : p = 38 ∨ p = 48) :
+    ssSeqL dflt dl s l [[p], [2], [r], [g], [b]] = .ok (setCol p s (rgbColor (u8 r) (u8 g) (u8 b)), l) := by
+  have hl : p ∈ ssCfg.labels := by rcases hp with rfl | rfl <;> decide
+  have ha : ssCfg.accepts p 1 = true := Props.C18.ssCfg_legacy p hp
+  rcases hp with rfl | rfl <;>
+    simp [ssSeqL, ssLoopKL, ssOne, idx, tokN, hl, ssColour, ssLegacy, rawIs, rawAtoi, ha, setCol, u8i_nat, isResetParam]
+
+/-- On every non-empty producible sequence, legacy forms included, the CSI case leaves the hyperlink alone. -/
+theorem ssSeqL_emittableLegacy (s : Style) (l : Link) (x : Seq) (hx : emittableLegacy x = true) (hne : x ≠ []) :
+    ssSeqL {} {} s l x =
+      match ssSeq {} s x with
+      | .ok s' => .ok (s', l)
+      | .error e => .error e := by
+  rcases emittableLegacy_cases x hx with h | ⟨p, n, hp, _, rfl⟩ | ⟨p, r, g, b, hp, _, _, _, rfl⟩
+  · exact ssSeqL_emittable {} {} s l x h hne
+  · have hp' : p = 38 ∨ p = 48 ∨ p = 58 := by rcases hp with h | h <;> simp [h]
+    have hl : p ∈ ssCfg.labels := by rcases hp with rfl | rfl <;> decide
+    have h1 : ssSeq {} s [[p], [5], [n]] = .ok (setCol p s (indexColor (u8 n))) := by
+      have := ss_idx_legacy ssCfg {} s p n hp' hl (Props.C18.ssCfg_legacy p hp)
+      simpa [ssSeq, ssSeqTok] using this
+    rw [ssSeqL_idx_legacy {} {} s l p n hp, h1]
+  · have hp' : p = 38 ∨ p = 48 ∨ p = 58 := by rcases hp with h | h <;> simp [h]
+    have hl : p ∈ ssCfg.labels := by rcases hp with rfl | rfl <;> decide
+    have h1 : ssSeq {} s [[p], [2], [r], [g], [b]] = .ok (setCol p s (rgbColor (u8 r) (u8 g) (u8 b))) := by
+      have := ss_rgb_legacy ssCfg {} s p r g b hp' hl (Props.C18.ssCfg_legacy p hp)
+      simpa [ssSeq, ssSeqTok] using this
+    rw [ssSeqL_rgb_legacy {} {} s l p r g b hp, h1]
+
+theorem encodeDelta_ne (legacy : Bool) (p n : Style) : ∀ x ∈ encodeDelta legacy p n, x ≠ [] := by
+  intro x hx
+  unfold encodeDelta at hx
+  simp only [List.mem_append] at hx
+  rcases hx with h | h | h | h | h
+  · split at h
+    · exact colour_ne_gen _ _ _ _ _ 30 90 (by rw [fmt_fgReset]; simp) fmt_fgSet fmt_fgBrightSet
+        (fun n _ => by cases legacy <;> simp [q, fmt_fgIndexSet, fmt_fgIndexSet_legacy])
+        (fun r g b _ _ _ => by cases legacy <;> simp [q, fmt_fgRGBSet, fmt_fgRGBSet_legacy]) _ x h
+    · cases h
+  · split at h
+    · exact colour_ne_gen _ _ _ _ _ 40 100 (by rw [fmt_bgReset]; simp) fmt_bgSet fmt_bgBrightSet
+        (fun n _ => by cases legacy <;> simp [q, fmt_bgIndexSet, fmt_bgIndexSet_legacy])
+        (fun r g b _ _ _ => by cases legacy <;> simp [q, fmt_bgRGBSet, fmt_bgRGBSet_legacy]) _ x h
+    · cases h
+  · split at h
+    · exact ul_ne _ x h
+    · cases h
+  · exact attr_ne _ _ x h
+  · split at h
+    · simp only [fmt_ulStyleSet, List.mem_singleton] at h; subst h; simp
+    · cases h
+
+theorem foldCL_of_foldC_legacy (xs : List Seq) (hx : ∀ x ∈ xs, emittableLegacy x = true ∧ x ≠ []) :
+    ∀ (s : Style) (l : Link) (n : Style), foldC (ssSeq {}) s xs = .ok n → foldCL (ssSeqL {} {}) s l xs = .ok (n, l) := by
+  induction xs with
+  | nil => intro s l n h; simp only [foldC] at h; injection h with h; subst h; rfl
+  | cons x r ih =>
+    intro s l n h
+    obtain ⟨he, hne⟩ := hx x (List.mem_cons_self ..)
+    simp only [foldC] at h
+    simp only [foldCL, ssSeqL_emittableLegacy s l x he hne]
+    cases hs : ssSeq {} s x with
+    | error e => rw [hs] at h; cases h
+    | ok s' =>
+      rw [hs] at h
+      exact ih (fun y hy => hx y (List.mem_cons_of_mem _ hy)) s' l n h
+
+/-- `NewStyledString` after the sequences `EncodeCells` writes between two cells (either format variant): the next style,
+    the link untouched. -/
+theorem ss_delta_roundtrip_cells_L (legacy : Bool) (s n : Style) (l : Link) (hs : s.wf) (hn : n.wf) :
+    foldCL (ssSeqL {} {}) s l (encodeDelta legacy s n) = .ok (n, l) :=
+  foldCL_of_foldC_legacy _ (fun x hx => ⟨encodeDelta_range legacy s n hn.ulStyle x hx, encodeDelta_ne legacy s n x hx⟩) s l n
+    (ss_delta_roundtrip_cells Props.C18.ssCfg_covers Props.C18.ssCfg_legacy legacy s n hs hn)
+
+
+/-- `LinksRestorable` as the driver evaluates it. -/
+theorem restorableB_iff : ∀ (cs : List LCell) (l : Link), restorableB l cs = true ↔ LinksRestorable l cs := by
+  intro cs
+  induction cs with
+  | nil => intro l; simp [restorableB, LinksRestorable]
+  | cons c cs ih =>
+    intro l
+    simp only [restorableB, LinksRestorable, LinkCanon, Bool.and_eq_true, ih c.link]
+    constructor
+    · rintro ⟨⟨⟨h1, h2⟩, h3⟩, h4⟩
+      refine ⟨⟨?_, ?_⟩, ?_, h4⟩
+      · intro b hb he; subst he; simp [hb] at h1
+      · intro hu; simpa [hu] using h2
+      · intro hu; simpa [hu] using h3
+    · rintro ⟨⟨h1, h2⟩, h3, h4⟩
+      refine ⟨⟨⟨?_, ?_⟩, ?_⟩, h4⟩
+      · simp only [Bool.not_eq_true', List.contains_eq_mem, decide_eq_false_iff_not]; intro hm; exact h1 _ hm rfl
+      · by_cases hu : c.link.url = [] <;> simp [hu, h2]
+      · by_cases hu : c.link.url = l.url <;> simp [hu, h3]
 
 end VaxisModel.Lemmas.SgrLinksFull
